@@ -46,7 +46,7 @@ def make_ctx(spec, binding, need_fo=False):
 def entry_to_json(entry):
     spec, binding = entry
     if binding == "generated":
-        keep = {k: spec[k] for k in ("name", "gen", "genparams", "_max_states", "_path_only") if k in spec}
+        keep = {k: spec[k] for k in ("name", "gen", "genparams", "_max_states", "_path_only", "_path_cap") if k in spec}
         return {"spec": keep, "binding": binding}
     return {"spec": spec_to_json(spec), "binding": binding}
 
@@ -103,7 +103,7 @@ def _run_entry(args):
         expand_only = None
         if spec.get("_path_only"):
             from .explore import plan_path_keys
-            expand_only = plan_path_keys(ctx)
+            expand_only = plan_path_keys(ctx, cap=spec.get("_path_cap"))
         res = explore(ctx, oracles, max_states=opts.get("max_states") or spec.get("_max_states"), expand_only=expand_only)
         param_transitions = 0
         nontrivial_first_pass = dict(ctx.nontrivial)     # distinct cases: counted in the object pass only
@@ -133,9 +133,22 @@ def _run_entry(args):
     except HarnessError as e:
         out["error"] = "HARNESS: " + str(e)
     except Exception as e:
-        # an exception escaping the code under test while exploring is reported by the caller as a
-        # violation of the armed property (the dynamics must not crash on a valid scenario)
-        out["crash"] = {"exc": type(e).__name__, "msg": str(e)[:300], "trace": traceback.format_exc()[-1500:]}
+        # an exception raised INSIDE the code under test while exploring is reported by the caller as a violation
+        # of the armed property (the dynamics must not crash on a valid scenario); an exception raised by the
+        # checking machinery itself is a harness error, never a violation
+        tb = e.__traceback__
+        last = None
+        while tb is not None:
+            last = tb.tb_frame.f_code.co_filename
+            tb = tb.tb_next
+        from .common import REPO, VERIF
+        in_mc = last is not None and os.path.realpath(last).startswith(os.path.realpath(os.path.join(VERIF, "mc")))
+        if in_mc:
+            out["error"] = "HARNESS: exception in the checking machinery: " + type(e).__name__ + ": " + str(e)[:120] + \
+                           " @ " + traceback.format_exc()[-400:]
+        else:
+            out["crash"] = {"exc": type(e).__name__, "msg": str(e)[:300], "trace": traceback.format_exc()[-1500:],
+                            "raised_in": last}
     out["wall_s"] = time.time() - t0
     return out
 
